@@ -105,8 +105,15 @@ func main() {
 	flag.BoolVar(&opts.keepRoot, "keep", false, "keep the database directory")
 	flag.BoolVar(&opts.recover, "recover", false, "run the recovery sequence on an existing directory (needs -state-in)")
 	sleepdiv := flag.Int("sleepdiv", 1, "divide the package's sleeps (shim build only)")
+	conc := flag.String("conc", "", "run a concurrency scenario: first | progress | lin")
+	seconds := flag.Int("seconds", 3, "duration of the progress scenario")
 	flag.Parse()
 	shimSleepDiv(*sleepdiv)
+
+	if *conc != "" {
+		runConc(*conc, *seed, *n, *root, *out, *seconds)
+		return
+	}
 
 	if *casecheck {
 		caseCheck()
